@@ -877,6 +877,33 @@ def wave8_rules(ctx):
         ok = bool(tests) and bool(lits)
         obs.append(ob("C14.escape/binding-open/trailing", ok, ctx.where(g), "a static piece followed by a binding has its trailing `{` written as an entity: %s" % ok,
                       witness=None if ok else "&#123;{{a}} is printed as {{{a}}, which reads back as a binding of the object literal {a}"))
+        # ... and "followed by a binding" is handed down correctly where a concatenation is split into its pieces: the left piece of
+        # a split `+` is never the last one, the right piece is the last one exactly when the whole is
+        rec = None
+        for it_ in nodes:
+            if it_.get("k") == "item" and it_.get("kind") == "fn" or it_.get("k") == "fn":
+                rec = it_ if any(x.get("k") == "call" and sir.call_name(x) == it_.get("name") for x in sir.walk(it_, into_items=True)) else rec
+        if rec is None:
+            obs.append(ob("C14.escape/binding-open/handed-down", None, ctx.where(g), "the splitter of mixed text is not a local recursive function: not decided for this tree"))
+        else:
+            params = [nm for p_ in rec.get("params", []) for nm, _pp in sir.pat_bindings(p_.get("pat") or {})]
+            flagp = None
+            for p_ in rec.get("params", []):
+                if (p_.get("ty") or "").strip() == "bool":
+                    flagp = (p_.get("pat") or {}).get("name")
+            calls_ = [x for x in sir.walk(rec.get("body") or rec, into_items=False) if x.get("k") == "call" and sir.call_name(x) == rec.get("name") and x["args"]]
+            wrong = []
+            for x in calls_:
+                who = sir.root_expr_name(x["args"][0])
+                last = sir.strip_ref(x["args"][-1])
+                if who == "left" and not (last.get("k") == "lit" and last.get("v") is False):
+                    wrong.append("the left piece is passed `%s`" % sir.expr_str(last))
+                if who == "right" and not (last.get("k") == "path" and last.get("s") == flagp):
+                    wrong.append("the right piece is passed `%s` instead of the caller's own flag" % sir.expr_str(last))
+            okh = flagp is not None and len(calls_) >= 2 and not wrong
+            obs.append(ob("C14.escape/binding-open/handed-down", okh if (flagp and len(calls_) >= 2) else None, ctx.where(g),
+                          "; ".join(wrong) if wrong else "split pieces: left is never last, right inherits the flag `%s`" % flagp,
+                          witness=None if okh else "{{a}}x&#123;{{b}} is printed as {{a}}x{{{b}}"))
     # an integer literal used as the object of `.name` is parenthesised (`1.a` is a float followed by a name)
     if fs:
         from exprmodel import ExprModel, arm_table
